@@ -559,7 +559,36 @@ func injectPyPIScenario(t *rapid.T, u *Universe) {
 		v.Reqs = append(v.Reqs, UReq{Name: target, Req: spec, Type: typ})
 	}
 	hi := func(p *UPkg) *UVer { return &p.Versions[len(p.Versions)-1] }
-	switch rapid.IntRange(0, 5).Draw(t, "scenariokind") {
+	topOf := func(p *UPkg) int {
+		top := 0
+		for i := range p.Versions {
+			if semver.PyPI.Compare(p.Versions[i].Version, p.Versions[top].Version) > 0 {
+				top = i
+			}
+		}
+		return top
+	}
+	switch rapid.IntRange(0, 6).Draw(t, "scenariokind") {
+	case 6: // re-pins in a chain: Z pushes P down, the lower P pushes R down, R asks P for the extra that guards Z
+		if len(P.Versions) >= 2 && len(R.Versions) >= 2 {
+			tp, tr := topOf(P), topOf(R)
+			for i := range root.Versions {
+				set(&root.Versions[i], P.Name, "", "")
+				set(&root.Versions[i], R.Name, "", "")
+			}
+			for i := range P.Versions {
+				set(&P.Versions[i], Z.Name, "", `Environment "extra == \"x\""`)
+				if i != tp {
+					set(&P.Versions[i], R.Name, "!="+R.Versions[tr].Version, "")
+				}
+			}
+			for i := range Z.Versions {
+				set(&Z.Versions[i], P.Name, "!="+P.Versions[tp].Version, "")
+			}
+			for i := range R.Versions {
+				set(&R.Versions[i], P.Name, "", "EnabledDependencies x")
+			}
+		}
 	case 5: // a candidate that is tried and dropped names a prerelease of Z
 		if len(P.Versions) >= 2 {
 			top := 0
